@@ -348,6 +348,28 @@ class Kit:
             if worst is None and must_fail:
                 self.notes.append(f"must-fail clause {tag} held on this input")
 
+    def ensure_close(self, tag, got, want, eps=Fraction(1, 10 ** 9), text="", kind="property"):
+        """got == want up to a perturbation of the coefficients: the ring normal form of (got - want) must have all
+        coefficients <= eps in absolute value (used downstream of a rounding of *concrete* coordinates to 12 decimals,
+        where an exact identity cannot hold).  Concrete mode: ordinary tolerance comparison."""
+        if self.mode != "sym":
+            return self.ensure_eq(tag, got, want, text=text, kind=kind)
+        g, w = self.val(got), self.val(want)
+        if g.shape != w.shape:
+            g, w = np.broadcast_arrays(g, w)
+        for idx in np.ndindex(*g.shape):
+            ok = False
+            try:
+                r = self.run.ring.normal(E.sub(g[idx], w[idx]))
+                num = self.run.ring.reduce(r.num) if self.run.ring.relations else r.num
+                ok = all(abs(c) <= eps for c in num.values())
+            except Exception:
+                ok = False
+            if ok:
+                self._ob(f"{tag}{list(idx)}", (text or tag) + " [coefficients of the difference <= 1e-9]", E.TRUE, kind=kind).backend = "ring~"
+            else:
+                self._ob(f"{tag}{list(idx)}", text or tag, E.eq(g[idx], w[idx]), kind=kind)
+
     def ensure(self, tag, cond, text="", kind="property", must_fail=False, slack: float = 0.0):
         """cond: boolean Expr, or callable(slack) -> Expr in concrete mode for inequalities with tolerance."""
         if self.mode == "sym":
